@@ -87,7 +87,6 @@ private:
 
         // Calculate inv(A - r * I) * vj
         Vector v_real(m_n), v_imag(m_n), OPv_real(m_n), OPv_imag(m_n);
-        const Scalar eps = TypeTraits<Scalar>::epsilon();
         // If a probing solve throws (the operator belongs to the user and may fail), the shift given at
         // construction must be re-installed before the exception leaves: init() does not set it again
         try
@@ -120,7 +119,12 @@ private:
                 const Complex lambdaj = (err1 < err2) ? root1 : root2;
                 m_ritz_val[i] = lambdaj;
 
-                if (abs(Eigen::numext::imag(lambdaj)) > eps)
+                // lambdaj is one half of a conjugate pair exactly when nu is: Ritz values of the transformed
+                // problem are either real with an exact zero imaginary part, or adjacent exact conjugates
+                // (see GenEigsBase::is_complex()), so only then does the next slot hold the partner.
+                // A real nu can still give a root with a non-zero imaginary part (negative discriminant:
+                // |lambda - sigmar| = |sigmai| up to rounding, or a Ritz value that has not converged)
+                if (nu.imag() != Scalar(0))
                 {
                     m_ritz_val[i + 1] = Eigen::numext::conj(lambdaj);
                     i++;
